@@ -109,10 +109,12 @@ prop("C11",
 
 prop("C12",
      title="Value and RDB-file serialisation round-trips through the parser",
-     quick=[{"re": "^TestC12$", "checks": 4000}],
+     quick=[{"re": "^TestC12$", "checks": 4000},
+            {"re": "^TestC12Huge$", "checks": 12, "shards": 2}],
      thorough=[{"re": "^TestC12$", "checks": 600000, "shards": 8, "timeout": 1700},
+               {"re": "^TestC12Huge$", "checks": 800, "shards": 4, "timeout": 1700},
                {"re": "^$", "fuzz": "^FuzzC12$", "fuzztime": "120s", "checks": 1, "exclusive": True, "timeout": 500}],
-     rule="(encdec) logical values String/List/Set/Hash/ZSet (0-300 elements; arbitrary bytes, integer-looking strings at the int8/16/24/32/64 "
+     rule="(huge containers, TestC12Huge) intsets and ziplist-encoded lists / hashes / sorted sets with 65534-70000 elements (the intset count is 32-bit, the ziplist count saturates at 65535 and the entries must be walked), decoded and compared with the logical value; the file round trip also draws scores from every float64 class (NaN, -0). (encdec) logical values String/List/Set/Hash/ZSet (0-300 elements; arbitrary bytes, integer-looking strings at the int8/16/24/32/64 "
           "limits, leading zeros/signs/spaces, lengths 62-65/252-256/300; scores from all float64 bit patterns incl. NaN, -0, subnormals, "
           "+-inf): DecodeDump(EncodeDump(v)) == v with order, NaN==NaN, sign of zero kept. (compact) the same logical values serialized by "
           "the harness in every compact encoding (ziplist list/zset/hash with every entry encoding, intset 16/32/64, zipmap incl. zmlen 254, "
@@ -222,7 +224,7 @@ prop("C14",
      title="Resume picks its own source's newest checkpoint and reads what the sender wrote",
      timing=True,
      quick=[{"re": "^TestC14$", "checks": 2500},
-            {"re": "^TestC14EndToEnd$", "checks": 2, "shards": 2, "timeout": 600}],
+            {"re": "^TestC14EndToEnd$", "checks": 4, "shards": 2, "timeout": 600}],
      thorough=[{"re": "^TestC14$", "checks": 900000, "shards": 10, "timeout": 1700},
                {"re": "^TestC14EndToEnd$", "checks": 72, "shards": 6, "timeout": 1700}],
      rule="histories of 0-10 checkpoint writes into a model target (loopback TCP): sources drawn from a set with prefix-related addresses "
@@ -297,7 +299,7 @@ prop("C05",
      rule="reply framing: 0-5 leading newlines, '+FULLRESYNC <40 hex> <offset>' or '+CONTINUE' in random letter case, 0-5 newlines before '$<n>', n from 1 to "
           "40000 (full path 300000; thorough up to 40 MiB) at 1,2,7,8191-8193,16384 and random, RDB and command bytes made of protocol look-alikes ('\\n', "
           "'\\r\\n', '$5\\r\\n', '+CONTINUE\\r\\n', PING frames, 0x00, 0xff); the byte stream is split at generated positions (always candidates within +-2 of the "
-          "RDB/command boundary, inside/around the '$n' header, in the middle of the RDB and 9 bytes before its end, at 8192 multiples) with generated inter-segment delays (dump mode: up to 40 ms, so that the RDB tail and the first command bytes arrive in a read of their own), sent by a fake source over loopback "
+          "RDB/command boundary, inside/around the '$n' header, in the middle of the RDB and 9 bytes before its end, at 8192 multiples) with generated inter-segment delays (dump mode: up to 40 ms, so that the RDB tail and the first command bytes arrive in a read of their own; one dump in three writes to a path that already holds a longer file), sent by a fake source over loopback "
           "TCP, and additionally fragmented on the reader side by a wrapper that caps each Read at scripted sizes; bufio sizes 16-65536, pipe 1-16 units, "
           "consumer read sizes/pauses scripted (back-pressure). Component level: utils.SendPSyncContinue + DbSyncer.runIncrementalSync; full path: the "
           "real sendPSyncCmd (32 MiB buffers); dump mode: dbDumper.dump to a temp file. Oracle: bytes read from the pipe == RDB||commands exactly, no "
@@ -324,7 +326,7 @@ prop("C07",
           "target.db in {-1,0,3} x target version 5.0.7 (RESTORE ... REPLACE) or 6.0.5 (the tool's rule turns REPLACE off: rewrite becomes DEL + RESTORE) x db/key/slot(sync only)/lua filters x key_exists x pre-existing target keys x RESTORE or element route x an injected "
           "error reply for one key x a schedule script: the model target (loopback TCP) holds every connection's next command at a gate; a scheduler "
           "waits until all workers have connected, then releases one waiting connection at a time, chosen by the generated sequence, once all open "
-          "connections are waiting; rarely (and in every TestC07Slow case) one reply is held back for 1.25-2.3 s, past the tool's one-second progress tick, so that the whole file has been read while entries are still unwritten. Real DbSyncer.syncRDBFile / dbRestorer.restoreRDBFile. Oracle at return time: every record that passes the reference "
+          "connections are waiting; rarely nothing listens at the target address (every worker fails to connect: the run must report a failure); rarely (and in every TestC07Slow case) one reply is held back for 1.25-2.3 s, past the tool's one-second progress tick, so that the whole file has been read while entries are still unwritten. Real DbSyncer.syncRDBFile / dbRestorer.restoreRDBFile. Oracle at return time: every record that passes the reference "
           "filter is in its source db (or target.db) with the source value, restored exactly once, nothing else written, existing keys untouched under "
           "ignore, SCRIPT LOAD count == scripts passing filter.lua; busy key under none or an injected error => sync returns an error / restore mode "
           "aborts. Chunked: one hash of 16-40 MiB (boundaries placed around the chunk limit) restored by 2-4 workers under a generated schedule, with/without "
@@ -433,7 +435,8 @@ prop("C08",
           "start + bytes sent before the drop + 1; the consumer of the pipe sees RDB || stream continue byte-exactly across the reconnect. (end to end) "
           "batches of 4-8 complete DbSyncer.Sync() runs with resume on against fake source + model target, starting fresh (PSYNC ? -1), from a checkpoint left by an "
           "earlier run that the source answers with +CONTINUE, or from one with an older run id that the source answers with FULLRESYNC under a new run id: LoadCheckpoint, PSYNC (first request checked), full sync of a small RDB, "
-          "then 5-18 commands (RPUSH/SELECT/PING, 0-2 keep-alive newlines in front of each) spread over >= 2.6 s with an optional drop: target applies exactly the source's commands once and in order, reconnect "
+          (the RDB optionally arrives in two pieces 60 ms apart; a run resumed with +CONTINUE may continue without a leading SELECT) "
+          "then 5-18 commands (RPUSH/SELECT/PING, PING also in inline form, 0-2 keep-alive newlines in front of each) spread over >= 2.6 s with an optional drop: target applies exactly the source's commands once and in order, reconnect "
           "offset exact, and every checkpoint offset stored in the target == start (the resumed db announcement) or start + end position of the last source command forwarded up to and including its batch (not of a command still waiting), under the run id that produced it (checked against "
           "the number of data commands applied when it was stored). Non-trivial: >=2 ACKs or a drop; every end-to-end run. Distinct = hash of the script.",
      technique="property-based testing (rapid) with generated traffic/fault timelines against a recording fake replication source; history-invariant oracles over the recorded ACK/PSYNC trace; batched instances",
